@@ -107,6 +107,25 @@ def cases(ctx):
             prog.append([rng.choice(["h", "z", "x", "k"]), [["Q", r]]] if rng.random() < 0.6 else ["rot_" + rng.choice("xyz"), [["Q", r], rng.randrange(32), 4]])
         yield {"kind": "direct", "nq": nq, "seed_prog": seed, "prog": prog, "debug": rng.random() < 0.3, "load": False, "carried": True,
                "loaded_two_qubit": False, "script": [rng.randrange(2) for _ in range(8)]}
+    for _ in range(ctx.n(40, 3000)):
+        # a Q register carried over from an earlier subroutine that this subroutine names ONLY as an array index / slice bound
+        # (an explicit loop register the application goes on indexing with): it is named, so it is not free to borrow
+        nq = rng.choice([3, 4])
+        seed = []
+        for v in range(nq):
+            seed += [["set", [["Q", 0], v]], ["qalloc", [["Q", 0]]], ["init", [["Q", 0]]], [rng.choice(["h", "x"]), [["Q", 0]]]]
+        r = rng.choice([2, 3, 4])
+        idx = rng.randrange(1, 3)
+        seed += [["set", [["R", 9], 3]], ["array", [["R", 9], 0]], ["set", [["Q", r], idx]]]
+        for j in range(3):
+            seed += [["set", [["R", 9], 10 * (j + 1)]], ["set", [["R", 8], j]], ["store", [["R", 9], [0, ["R", 8]]]]]
+        a, b2 = rng.sample(range(1, nq), 2)
+        prog = [["set", [["Q", 0], a]], ["set", [["Q", 1], b2]], [rng.choice(["cnot", "cphase"]), [["Q", 0], ["Q", 1]]]]
+        prog += [["load", [["R", 0], [0, ["Q", r]]]], ["set", [["R", 1], 5]], ["add", [["R", 0], ["R", 0], ["R", 1]]], ["store", [["R", 0], [0, ["Q", r]]]]]
+        if rng.random() < 0.5:
+            prog += [["set", [["R", 2], 3]], ["wait_all", [[0, ["Q", r], ["R", 2]]]]]
+        yield {"kind": "direct", "nq": nq, "seed_prog": seed, "prog": prog, "debug": rng.random() < 0.3, "load": False, "carried": True,
+               "loaded_two_qubit": False, "script": [rng.randrange(2) for _ in range(8)], "index_register": True}
     for _ in range(ctx.n(60, 5000)):
         # a Q register that is named only BELOW a carbon-carbon gate but is live at it: the loop jumps back up, and the
         # register borrowed for the electron may not be that one
